@@ -282,6 +282,12 @@ def run_check(cid, tier, jobs=None):
     repo.setup()
     chk = load_check(cid)
     shards = list(chk.shards(tier)) + chains_of(chk, tier) + optimised_of(chk, tier) + traced_of(chk, tier) + byteorder_of(chk, tier)
+    shard_families = {}
+    for s_ in shards:
+        fam = str(s_[0]) if isinstance(s_, (tuple, list)) and s_ else str(s_).split(":")[0][:24]
+        if fam.startswith("__") and fam != "__chain__" and isinstance(s_, (tuple, list)) and len(s_) > 1 and isinstance(s_[1], (tuple, list)) and s_[1]:
+            fam = f"{fam}{s_[1][0]}"
+        shard_families[fam] = shard_families.get(fam, 0) + 1
     random.Random(seed).shuffle(shards)
     shards.sort(key=lambda x: 0 if x and x[0] == "__chain__" else 1)      # the long tasks first
     jobs = jobs or int(os.environ.get("VERIF_JOBS", "0") or 0) or min(16, os.cpu_count() or 1)
@@ -396,6 +402,9 @@ def run_check(cid, tier, jobs=None):
         "observations": agg["observations"],
         "known_findings_hit": [kf["key"] for kf, _ in known_hit],
         "bounds": getattr(chk, "BOUNDS", {}).get(tier, ""),
+        # every shard of this run by family (first element of the shard tuple; "__x__" = a runner-level re-run of another
+        # shard: in one process with others, under python -O, with TRACE logging, with the other byte order) - DESIGN.md 11 / 13.1
+        "shard_families": shard_families,
     }
     if hasattr(chk, "coverage_extra"):
         cov.update(chk.coverage_extra(tier, agg))
